@@ -11,6 +11,8 @@ def build(tier):
                 continue
             obs.append(trees.tree_ob("C17.a", sk, "rel", dict(base, recursive=rec, auto_ex=False, has_prefix=False), fixexcl=(sk != "S1"),
                                      timeout=400 if quick else 2400))
+    obs.append(trees.tree_ob("C17.a", "S6", "rel", dict(base, recursive=True, auto_ex=False, has_prefix=False), fixexcl=True, timeout=400 if quick else 2400,
+                             note=" (names differing only in letter case)"))
     obs.append(trees.tree_ob("C17.a", "S1", "rel", dict(base, recursive=False, auto_ex=True), fixexcl=True, timeout=400 if quick else 2400, note=" (prefix)"))
     # documenting another input (directory or lone file) before, in the same run with the same Settings object
     for (sk, rec) in ((("S1", False), ("S2q", True)) if quick else (("S1", False), ("S2", True), ("S3", True), ("S2b", True))):
